@@ -151,6 +151,7 @@ fn main() {
                 violation: mv,
                 minimised: true,
                 note: "written by --run".into(),
+                build_variant: batch::build_variant().to_string(),
             };
             let _ = std::fs::create_dir_all("/verif/replays/tmp");
             let p = format!("/verif/replays/tmp/{prop}-{idx}.json");
